@@ -218,7 +218,7 @@ def sentence(g, rnd, e, depth=0, big=0):
                 return p[1] if isinstance(p[1], str) else ""
             return sentence(g, rnd, Call(p[1]), depth + 1)
         o = r.fn.get("o")
-        return {"digits": "1", "two": "".join(rnd.choice(g.alpha) for _ in range(2)) if g.alpha else "", "upper": "B"}.get(o, "")
+        return {"digits": "1", "bang": "1", "two": "".join(rnd.choice(g.alpha) for _ in range(2)) if g.alpha else "", "upper": "B"}.get(o, "")
     return ""
 
 
@@ -396,9 +396,18 @@ def fam_fields(tier, seed):
         ("ov_char", Choice(Seq(Lit("c"), Call("char", "@")), Call("char", "@"))),
         ("ov_string", Call("T", "@")),
     ]
-    for name, body in ov:
+    # @string rules take the whole matched text whatever fields or overrides their body mentions
+    sov = [
+        ("string_ov_string_wrapped", Seq(Lit("c"), Call("T", "@"), Lit("c"))),
+        ("string_ov_string_prefix", Seq(Lit("c"), Call("D", "@"))),
+        ("string_ov_string_suffix_opt", Seq(Call("D", "@"), Opt(Lit("c")))),
+        ("string_ov_rule_wrapped", Seq(Lit("c"), Call("A", "@"), Clo(Lit("c")))),
+        ("string_with_fields", Seq(Call("A", "x"), Clo(Call("D", "y")), Lit("c"))),
+        ("string_ov_choice", Choice(Seq(Lit("c"), Call("D", "@")), Seq(Call("D", "@"), Lit("c"), Lit("c")))),
+    ]
+    for name, body in ov + sov:
         rules = [Rule("S", Seq(Call("O", "r"), Opt(Call("O", "q"))), export=True, no_skip_ws=True),
-                 Rule("O", body, no_skip_ws=True)] + fields_rules(Lit("a"))[1:]
+                 Rule("O", body, no_skip_ws=True, string=(name, body) in sov)] + fields_rules(Lit("a"))[1:]
         g = Grammar("fld_%04d" % len(out), rules, root="S", maxlen=maxlen, meta={"shape": name})
         g.alpha = ["a", "b", "c"]
         if well_formed(g):
@@ -445,8 +454,17 @@ def fam_ws(tier, seed):
         ("choice_empty_alt", Seq(Lit("a"), Choice(Lit("b"), Lit("a"), Seq()), Call("T", "t"))),
         ("choice_opt_alt_in_string", Seq(Call("V", "v"), Opt(Call("V", "w")))),
         ("choice_clo_alt", Seq(Lit("a"), Choice(Lit("b"), Clo(Lit("a"))), Eoi())),
+        # whitespace before a call is the caller's, also when the callee then matches nothing
+        ("call_nullable_last", Seq(Lit("a"), Call("Z", "z"))),
+        ("call_nullable_mid", Seq(Lit("a"), Call("Z", "z"), Lit("a"))),
+        ("call_nullable_noskip_callee", Seq(Lit("a"), Call("ZN", "z"), Opt(Lit("a")))),
+        ("call_nullable_through_skipping_rule", Seq(Call("KK", "k"), Lit("a"))),
+        ("call_nullable_in_clo", Seq(Clo(Seq(Lit("a"), Call("Z", "z"))), Eoi())),
+        ("call_nullable_override", Seq(Call("ZO", "o"), Call("ZO", "p"), Eoi())),
     ]
-    extra = [Rule("V", Seq(Lit("a"), Choice(Lit("b"), Opt(Lit("a")))), string=True, position=True),
+    extra = [Rule("Z", Clo(Call("F", "fs"))), Rule("ZN", Clo(Call("F", "fs")), no_skip_ws=True), Rule("F", Lit("b"), position=True),
+             Rule("KK", Seq(Lit("a"), Call("Z", "z")), position=True), Rule("ZO", Opt(Call("F", "@"))),
+             Rule("V", Seq(Lit("a"), Choice(Lit("b"), Opt(Lit("a")))), string=True, position=True),
              Rule("T", Clo(Range("a", "b"), plus=True), string=True, no_skip_ws=True),
              Rule("U", Clo(Range("a", "b"), plus=True), string=True),
              CharRule("C", [("range", "a", "b")])]
@@ -558,6 +576,22 @@ def memo_bases():
                  Rule("Group", Choice(Seq(Lit("("), Call("Name", "@"), Lit(")")), Seq(Call("Name", "@"), Lit("*"), Lit("*"))), no_skip_ws=True),
                  Rule("Name", Clo(Lit("a"), plus=True), string=True, no_skip_ws=True)],
                 ["a", "*", "(", "!"], ["Marked", "Group", "Name"]))
+    # skipping memoized rules entered in front of whitespace by a non-skipping caller: where they start (range,
+    # string slice, empty match) is where they were called
+    out.append(("skipping_memo_noskip_caller",
+                [Rule("S", Seq(Lit("a"), Call("P", "p"), Opt(Call("Q", "q")), Opt(Call("N", "n")), Eoi()), export=True, no_skip_ws=True, position=True),
+                 Rule("P", Seq(Lit("b"), Opt(Lit("b"))), position=True),
+                 Rule("Q", Seq(Lit("a"), Clo(Lit("a"))), string=True),
+                 Rule("N", Clo(Call("F", "x"))),
+                 Rule("F", Lit("b"), position=True)],
+                ["a", "b", " "], ["P", "Q", "N"]))
+    # a user function with a bug: it panics on '!'.  The panic reaches the caller of parse() and nothing of that
+    # call may show in any later parse (sequentially, in another order, on other threads)
+    out.append(("panicking_extern",
+                [Rule("S", Choice(Seq(Call("M", "m"), Lit("x")), Seq(Call("M", "m"), Opt(Call("X", "y")))), export=True, no_skip_ws=True),
+                 Rule("M", Seq(Lit("a"), Opt(Call("X", "x"))), no_skip_ws=True),
+                 ExternRule("X", {"o": "bang", "path": "verif_common::oracles::ext_bang", "nullable": False})],
+                ["a", "1", "!", "x"], ["S", "M"]))
     even = {"o": "str_even", "path": "verif_common::oracles::chk_str_even", "name": "verif_common::oracles::chk_str_even"}
     out.append(("check_retry",
                 [Rule("S", Choice(Seq(Call("K", "k"), Lit("!")), Call("K", "k")), export=True, no_skip_ws=True),
@@ -697,6 +731,13 @@ def lr_bases():
     out.append(("nullable_tail_position", [Rule("O", Choice(Seq(Call("O", "left", boxed=True), Opt(Seq(Call("M", "op"), Call("N", "right")))),
                                                            Call("N", "num")), export=True, leftrec=True, position=True),
                                            Rule("M", Lit("-")), Rule("N", Lit("n"), position=True)], "O", ["n", "-", " "], True))
+    # both directives on one rule (redundant but legal: @leftrec implies the cache)
+    out.append(("leftrec_and_memoize", [Rule("A", Choice(Seq(Call("A", "l", boxed=True), Lit("x")), Lit("b")),
+                                             export=True, no_skip_ws=True, leftrec=True, memoize=True)], "A", ["b", "x", "y"], True))
+    out.append(("leftrec_and_memoize_indirect", [Rule("S", Seq(Call("E", "e"), Opt(Lit("x"))), export=True, no_skip_ws=True),
+                                                 Rule("E", Choice(Call("P", "@"), Call("N", "@")), no_skip_ws=True, leftrec=True, memoize=True),
+                                                 Rule("P", Seq(Call("E", "l", boxed=True), Lit("+"), Call("N", "r")), no_skip_ws=True),
+                                                 Rule("N", Lit("n"), no_skip_ws=True, memoize=True)], "S", ["n", "+", "x"], True))
     out.append(("neg_guard", [Rule("A", Choice(Seq(Call("A", "l", boxed=True), Lit("x")), Seq(Neg(Call("A")), Lit("b"))),
                                    export=True, no_skip_ws=True, leftrec=True)], "A", ["b", "x"], True))
     return out
@@ -843,6 +884,10 @@ def fam_uni(tier, seed):
         for k in range(4):
             g.real_extra.append(list("a" * k + E9 * 40))
             g.real_extra.append(list("a" * k + DAO * 30 + EMO * 10))
+        # ... and against byte offsets in the hundreds (a preview or window cut at a byte count)
+        for k in range(4):
+            g.real_extra.append(list("a" * k + E9 * 135))
+            g.real_extra.append(list("a" * k + DAO * 60 + EMO * 40 + E9 * 20))
         if well_formed(g):
             out.append(g)
     return out
@@ -1054,6 +1099,32 @@ def fam_user(tier, seed):
                                                    {"o": "char_in", "lo": "a", "hi": "b", "path": "@cchk_ab", "name": "@cchk_ab",
                                                     "rust": "pub fn cchk_ab(c: char) -> bool { logged(\"cchk_ab\", &c, ('a'..='b').contains(&c)) }"}]),
                                   CharRule("D", [("lit", "a"), ("lit", "c")])], ["a", "b", "c"])
+    # a rejected value: the failure belongs where the value ends, and what failed inside the body further on stays
+    # recorded (every rule template: enum override, simple override, struct, @string)
+    for kind, orule in (("enum", Rule("O", Choice(Call("AA", "@"), Call("B", "@")), no_skip_ws=True)),
+                        ("simple", Rule("O", Seq(Lit("a"), Call("AA", "@"), Opt(Lit("b"))), no_skip_ws=True)),
+                        ("struct", Rule("O", Seq(Call("AA", "x"), Clo(Call("B", "ys"))), no_skip_ws=True)),
+                        ("string", Rule("O", Seq(Lit("a"), Clo(Lit("a")), Opt(Seq(Lit("b"), Lit("b")))), no_skip_ws=True, string=True))):
+        orule.checks = [never]
+        mk("chk_reject_inner_failures_" + kind,
+           [Rule("S", Choice(Seq(Call("O", "o"), Lit("!")), Lit("!")), export=True, no_skip_ws=True), orule,
+            Rule("AA", Seq(Lit("a"), Clo(Lit("a"))), no_skip_ws=True, string=True), Rule("B", Lit("b"), no_skip_ws=True)], ["a", "b", "!"])
+    # a @char rule referenced from another @char rule keeps its checks (two levels deep)
+    mk("chk_char_in_char", [Rule("S", Seq(Call("N", "n"), Opt(Call("P", "p")), Opt(Call("V", "v"))), export=True, no_skip_ws=True),
+                            CharRule("V", [("range", "a", "z")],
+                                     checks=[{"o": "char_not", "c": "b", "path": "@cchk_vnotb", "name": "@cchk_vnotb",
+                                              "rust": "pub fn cchk_vnotb(c: char) -> bool { logged(\"cchk_vnotb\", &c, c != 'b') }"}]),
+                            CharRule("N", [("ref", "V"), ("lit", "1")]),
+                            CharRule("P", [("lit", "/"), ("ref", "N")],
+                                     checks=[{"o": "char_not", "c": "c", "path": "@cchk_pnotc", "name": "@cchk_pnotc",
+                                              "rust": "pub fn cchk_pnotc(c: char) -> bool { logged(\"cchk_pnotc\", &c, c != 'c') }"}])],
+       ["a", "b", "c", "1", "/"])
+    mk("chk_char_in_char_choice", [Rule("S", Clo(Choice(Call("N", "n"), Call("K", "k"))), export=True, no_skip_ws=True),
+                                   CharRule("V", [("range", "a", "c")],
+                                            checks=[{"o": "char_not", "c": "b", "path": "@cchk_vnotb2", "name": "@cchk_vnotb2",
+                                                     "rust": "pub fn cchk_vnotb2(c: char) -> bool { logged(\"cchk_vnotb2\", &c, c != 'b') }"}]),
+                                   CharRule("N", [("lit", "1"), ("ref", "V")]),
+                                   CharRule("K", [("lit", "b")])], ["a", "b", "c", "1"])
     mk("ext_zero_at_end", [Rule("S", Seq(Lit("a"), Call("Z", "z"), Eoi()), export=True, no_skip_ws=True), ext["Z"]], ["a", "b"])
     mk("ext_zero_ws_end", [Rule("S", Seq(Lit("a"), Call("Z", "z"), Opt(Lit("b"))), export=True), ext["Z"]], ["a", "b", " "])
     mk("ext_zero_in_clo_end", [Rule("S", Seq(Clo(Seq(Lit("a"), Call("Z", "z"))), Eoi()), export=True), ext["Z"]], ["a", " ", "b"])
@@ -1776,7 +1847,7 @@ def fam_randmemo(tier, seed):
             for r in h.rules:
                 # (LP lies on a left-recursive cycle: memoizing it is outside C05 / C07 - its failure during the
                 # seed evaluation would be cached and the growth would never see it succeed)
-                if r.kind == "rule" and not r.export and r.name not in ("T", "O", "A", "B", "L", "LP"):
+                if r.kind == "rule" and not r.export and r.name not in ("T", "O", "A", "B", "LP"):
                     r.memoize = (not r.memoize) if flip else r.memoize
             h.meta = dict(g.meta, base=g.id, memo=[r.name for r in h.rules if r.kind == "rule" and r.memoize],
                           probes={}, nrules=0, all_memo=False)
